@@ -163,6 +163,7 @@ def mask_x(real, model):
 
 
 MODEL = {}
+ORACLE_CACHE = {}
 
 
 def model_answer(rq):
@@ -471,7 +472,12 @@ def build(suite, info):
         canon = [str(a) for a in canon]
 
         def oracle():
-            a = run_real_x(tool, kind, name, canon, ord_)
+            # (the canonical line is shared by several variants: its result is computed once per process; the
+            # implementation side of the correspondence never uses this cache)
+            ka = (tool, kind, name, tuple(canon), ord_)
+            if ka not in ORACLE_CACHE:
+                ORACLE_CACHE[ka] = run_real_x(tool, kind, name, canon, ord_)
+            a = ORACLE_CACHE[ka]
             b = run_real_x(tool, kind, name, argv, ord_)
             if a != b:
                 return {"canonical": [tool, name] + canon, "builds": a, "variant": [tool, name] + argv, "variant_builds": b,
